@@ -7,7 +7,7 @@
    contract  n > 0 /\ n^2 = sum of squares  is a hypothesis of the theorems and is checked on every run
    (norms_okb, toleranced).  scipy.optimize.linear_sum_assignment is an oracle `assign` (contract: a
    maximum-weight perfect matching); its answer is checked against the executable brute force best_perm. *)
-From Coq Require Import List Arith Bool.
+From Coq Require Import List Arith Bool ZArith.
 From TLV Require Import Base.Shape Base.PyList Base.Tensor Base.Ops.
 Import ListNotations.
 
@@ -176,6 +176,17 @@ Definition leverage_score_dist_any (renorm : bool) (U : mat) (sv : list F) (nr n
   match leverage_score_dist U sv nr nc eps with
   | Ok l => Ok (if renorm then (let t := fsum Op l in map (fun x => div x t) l) else l)
   | Err => Err
+  end.
+
+(* NumPy's normalize_axis_index: an axis argument is an integer in [-ndim, ndim); negative values count from the end *)
+Definition norm_axis (z : Z) (nd : nat) : res nat :=
+  if (0 <=? z)%Z && (z <? Z.of_nat nd)%Z then Ok (Z.to_nat z)
+  else if (- Z.of_nat nd <=? z)%Z && (z <? 0)%Z then Ok (Z.to_nat (z + Z.of_nat nd))
+  else Err.
+Definition norm_axis_opt (ax : option Z) (nd : nat) : res (option nat) :=
+  match ax with
+  | None => Ok None
+  | Some z => match norm_axis z nd with Ok a => Ok (Some a) | Err => Err end
   end.
 
 (* ---------- metrics/regression.py (tensors of Base/Tensor.v, optional axis) ---------- *)
